@@ -8,6 +8,7 @@ import (
 	"io"
 	"strings"
 	"testing"
+	"unicode/utf8"
 
 	"github.com/PelicanPlatform/classad/classad"
 	"github.com/bbockelm/cedar/message"
@@ -644,4 +645,20 @@ var regressDec = []DecCase{
 	{V: `"a" + "b"`, Pre: " ", Mid: " "},
 	{V: `"a"+"b"`, Pre: "", Mid: ""},
 	{V: `"x" == "y"`, Pre: " ", Mid: " ", AES: true},
+}
+
+// FuzzC08ValueText: coverage-guided search over value texts (thorough tier).
+func FuzzC08ValueText(f *testing.F) {
+	for _, s := range []string{`"a" + "b"`, "010", "5.", "1_0.5", "0x1.8p1", "true", "-5", `"\S"`, "1e5", "TRUE ", `"a\"b"`, "3.0E-5", "--1", "1.5e", `""`} {
+		f.Add(s, false)
+	}
+	f.Fuzz(func(t *testing.T, v string, aes bool) {
+		if len(v) > 64 || strings.ContainsAny(v, "\x00\n") || !utf8.ValidString(v) { // the wire carries valid UTF-8 text
+			return
+		}
+		c := DecCase{V: v, Pre: " ", Mid: " ", AES: aes}
+		if viol := runDec(c); viol != "" {
+			t.Fatalf("C08 violated: %s", viol)
+		}
+	})
 }
